@@ -27,7 +27,12 @@ func racePhase(prop, tier string, base uint64, cfg tierCfg, workers int, tmp str
 	if v := envInt("VERIF_RACE_RUNS", 0); v > 0 {
 		runs = uint64(v)
 	}
-	deadline := time.Now().Add(time.Duration(cfg.CapS) * time.Second).UnixMilli()
+	// the race phase gets what is left of the check's wall-clock cap, at least a third of it
+	left := time.Duration(cfg.CapS)*time.Second - time.Since(checkStart)
+	if min := time.Duration(cfg.CapS) * time.Second / 3; left < min {
+		left = min
+	}
+	deadline := time.Now().Add(left).UnixMilli()
 	var wg sync.WaitGroup
 	var mu sync.Mutex
 	fail := ""
